@@ -136,7 +136,10 @@ def concretise(tokens, names, spelling, ws):
 PROVIDER_KINDS = ["sm_prop", "sm_method", "sm_attr", "model_method", "model_attr", "listener_method", "listener_prop"]
 
 
-def build_machine(exprs, names, kinds, coro=()):
+DECLS = ["itself", "to", "from", "any", "any_or", "to_or"]
+
+
+def build_machine(exprs, names, kinds, coro=(), decl="itself"):
     """Single state with a self transition `go`; exprs: [(text, expected)].  Returns (cls, model, listener, log, box)."""
     from statemachine import State, StateMachine
     from statemachine.factory import StateMachineMetaclass
@@ -186,7 +189,20 @@ def build_machine(exprs, names, kinds, coro=()):
         kw["cond"] = conds if len(conds) > 1 else conds[0]
     if unless:
         kw["unless"] = unless if len(unless) > 1 else unless[0]
-    attrs = {"s0": s0, "go": s0.to.itself(**kw), "__module__": "vmod_c08"}
+    # the same guarded self transition, declared in every documented way
+    if decl == "to":
+        go = s0.to(s0, **kw)
+    elif decl == "from":
+        go = s0.from_(s0, **kw)
+    elif decl == "any":
+        go = s0.from_.any(**kw)
+    elif decl == "any_or":
+        go = s0.from_.any(**kw) | s0.to.itself(cond="never_true_c08")     # the guarded one comes first
+    elif decl == "to_or":
+        go = s0.to(s0, **kw) | s0.to.itself(cond="never_true_c08")
+    else:
+        go = s0.to.itself(**kw)
+    attrs = {"s0": s0, "go": go, "never_true_c08": False, "__module__": "vmod_c08"}
     attrs.update(sm_attrs)
     cls = StateMachineMetaclass("GuardM", (StateMachine,), attrs)
     model = type("GModel", (), dict(model_attrs, state=None))()
@@ -292,8 +308,10 @@ def run(pid, tier, seed, replay):
                         no_space_no_bang=any(" " not in t and "!" not in t and not t.isidentifier() for t, _ in concrete),
                         bang_after_word=any(__import__("re").search(r"[A-Za-z0-9_']!(?!=)", t) for t, _ in concrete),
                         same_name_in_cond_and_unless=bool(cond_names & unless_names))
+        decl = rng.choice(DECLS)
+        features["declared_by"] = decl
         try:
-            cls, model, listener, log, box, plain = build_machine(concrete, names, kinds, coro)
+            cls, model, listener, log, box, plain = build_machine(concrete, names, kinds, coro, decl)
             sm = cls(model, listeners=[listener])
         except Exception as ex:  # noqa: BLE001
             chk.report(dict(features, kind="valid_expression_rejected", error=type(ex).__name__),
